@@ -67,8 +67,12 @@ def skeleton(n):
     return (n.tag, tuple(sorted(n.attrib.items())), tuple(skeleton(c) for c in n._children))
 
 
+NBSP = chr(160)
+
+
 def ok_str(t):
-    return t is None or (len(t) <= 1 and all(c in "a " for c in t))
+    # NO-BREAK SPACE is text for ODF (not white space) although Python's str.strip() removes it
+    return t is None or (len(t) <= 1 and all(c in ("a", " ", NBSP) for c in t))
 
 
 def mk(kind1, t_p, t1, tail1, inner):
